@@ -516,6 +516,10 @@ func (m *Muxer) Handle(w http.ResponseWriter, r *http.Request) {
 }
 
 func (m *Muxer) createFirstSegment(nextDTS time.Duration, nextNTP time.Time) error {
+	// this also runs after a failed rotation, when requests are already reading the streams
+	m.mutex.Lock()
+	defer m.mutex.Unlock()
+
 	for _, stream := range m.streams {
 		err := stream.createFirstSegment(nextDTS, nextNTP)
 		if err != nil {
